@@ -106,6 +106,10 @@ pub(super) async fn run_pipes_task(handle: &TaskHandle, ctx: TaskRunContext) {
             return;
         }
     };
+    #[cfg(rip_verif)]
+    rip_kernel::verif::point("task.proc.spawned", || {
+        serde_json::json!({"stream": handle.task_id, "pid": child.id()})
+    });
 
     {
         let mut status = handle.status.write().await;
@@ -173,6 +177,10 @@ pub(super) async fn run_pipes_task(handle: &TaskHandle, ctx: TaskRunContext) {
             child.wait().await
         }
     };
+    #[cfg(rip_verif)]
+    rip_kernel::verif::point("task.proc.exited", || {
+        serde_json::json!({"stream": handle.task_id, "cancelled": cancel_reason.is_some()})
+    });
 
     let stdout_summary = stdout_handle.await.unwrap_or_else(|_| {
         TaskLogSummary::failed(
